@@ -1,0 +1,16 @@
+//go:build verif
+
+package sync
+
+import rand "math/rand/v2"
+
+// VerifJitter, when set, replaces the random source of the timer jitter
+// (deterministic simulator, build tag "verif").
+var VerifJitter func(n int64) int64
+
+func jitterInt64N(n int64) int64 {
+	if VerifJitter != nil {
+		return VerifJitter(n)
+	}
+	return rand.Int64N(n)
+}
